@@ -112,6 +112,39 @@ def bool_edges(f: Func, local: int):
     return te, fe
 
 
+def lifted_edges(f: Func, edge):
+    """`matches!` and `a && b` materialise a test as a bool: the arm block only does `flag = const true; goto join` and
+    every other definition of `flag` is the opposite constant.  Returns the branch edges on `flag` that are equivalent
+    to (implied only by) having taken `edge`, plus the edge itself."""
+    out = [edge]
+    b, tgt = edge
+    blk = f.blocks[tgt]
+    if blk["term"]["k"] != "goto":
+        return out
+    preds = [x for x in f.live if tgt in f.succ[x]]
+    if preds != [b]:
+        return out
+    assigns = [st for st in blk["stmts"] if st["k"] == "assign"]
+    if len(assigns) != 1 or assigns[0]["place"]["p"] or assigns[0]["rv"]["k"] != "use":
+        return out
+    c = assigns[0]["rv"]["op"].get("const")
+    if not c or norm(c.get("ty", "")) != "bool" or c.get("bits") not in ("0", "1"):
+        return out
+    flag, val = assigns[0]["place"]["l"], c["bits"]
+    for d in f.defs.get(flag, []):
+        if d[0] != "stmt":
+            return out
+        st = d[3]
+        if st is assigns[0]:
+            continue
+        c2 = st["rv"].get("op", {}).get("const") if st["rv"]["k"] == "use" else None
+        if not c2 or c2.get("bits") not in ("0", "1") or c2["bits"] == val:
+            return out
+    te, fe = bool_edges(f, flag)
+    out += te if val == "1" else fe
+    return out
+
+
 def call_result_edges(f: Func, block: int):
     """Branch edges controlled by the bool result of the call terminating `block`."""
     t = f.blocks[block]["term"]
